@@ -55,6 +55,8 @@ BAD = [
     ("A.f[5] = None over an existing input, without allow_none", lambda M: M.A.f.__setitem__(5, None)),
     ("D.add_bases(X) where X holds a relative reference to an outside object", lambda M: M.D.add_bases(M.X)),
     ("new_space('E2', bases=X) with the same out-of-scope relative reference", lambda M: M.m.new_space("E2", bases=M.X)),
+    ("B.add_bases(KC): cells r of KC clashes with B's derived reference r (B.f, derived, holds an input)", lambda M: M.B.add_bases(M.KC)),
+    ("A.add_bases(KC): same clash one level up (sub space B holds the input)", lambda M: M.A.add_bases(M.KC)),
     ("B.f.formula = malformed on a DERIVED cells", lambda M: setattr(M.B.f, "formula", "lambda t: (")),
     ("A.f.is_cached = 'x'? (valid: truthy) / A.f.allow_none = 3 (valid) -> rename cells to keyword", lambda M: M.A.f.rename("lambda")),
 ]
@@ -77,7 +79,12 @@ class Mdl:
             B.new_cells("h", formula="lambda: f(1) + f(5)")
             C = self.C = m.new_space("C")
             C.new_cells("f", formula="lambda t: 100 + t")
-            self.D = m.new_space("D")
+            D = self.D = m.new_space("D")
+            D1, D2 = m.new_space("D1", bases=D), m.new_space("D2", bases=D)      # a diamond below D: a failing add_bases must undo all four
+            m.new_space("D3", bases=[D1, D2])
+            B.f[7] = 70                                   # input on a DERIVED cells
+            KC = self.KC = m.new_space("KC")
+            KC.new_cells("r", formula="lambda: 0")        # a cells named like A's reference r
             X = self.X = m.new_space("X")
             X.new_cells("xf", formula="lambda: 1")
             X.set_ref("rr", C.f, "relative")          # accepted while X has no sub space
